@@ -23,6 +23,7 @@ CMP = ("Eq", "Ne", "Lt", "Le", "Gt", "Ge")
 
 
 # From between integer types is lossless by definition
+_IS_NEG = re.compile(r"core::num::<impl (i8|i16|i32|i64|i128|isize)>::(is_negative|is_positive)")
 _ORD_CMP = re.compile(r"core::cmp::impls::<impl core::cmp::Ord for (u8|u16|u32|u64|u128|usize|i8|i16|i32|i64|i128|isize)>::cmp")
 _FROM_INT = re.compile(r"core::convert::num::<impl core::convert::From<(u8|u16|u32|u64|usize|bool|i8|i16|i32|i64|isize)> for "
                        r"(u16|u32|u64|u128|usize|i16|i32|i64|i128|isize)>::from")
@@ -1131,6 +1132,10 @@ class Analysis:
             lk = self.len_key(a0_local, st)
             if lk is not None and lk[0] == "len":
                 fact = ("Eq", lk, ("c", 0))
+        elif name is not None and _IS_NEG.fullmatch(name) and len(args) == 1:
+            k_ = self.operand_key(st, args[0])
+            if k_ is not None and not is_c(k_):
+                fact = ("Lt", k_, ("c", 0)) if name.endswith("is_negative") else ("Gt", k_, ("c", 0))
         elif name in ("core::cmp::min", "core::cmp::Ord::min") and len(args) == 2:
             a, _ = self.eval_operand(st, args[0])
             b, _ = self.eval_operand(st, args[1])
